@@ -6,6 +6,7 @@
 //! trusted: env: APIError::InvalidRoute carries no message (rewrite of `err: <string>`); RecipientOnionFields skeleton {total_mpp_amount_msat, custom_tlvs}; PublicKey, PaymentPreimage, InvoiceRequest, TrampolineOnionPacket, BlindedHop opaque/skeleton; assume_specification for Option::take (std definition)
 //! trusted: process_failure_packet: AttributionData skeleton with external_body shift_right (verified for the real type in u14 / Kani); update_attribution_data external_body (leaves attribution data present and the data untouched: get_or_insert + update); update_fail_htlc_wire_len external_body returning the uninterpreted wire size (a function of the data length and the presence of attribution data); R8: `if let Some(ref mut x) = e { .. }` -> match on &mut e
 //! trusted: R15: decode_next_hop: the statements up to the HMAC test verbatim as a function (key derivation external_body over uninterpreted rho_of/mu_of; HmacEngine is a stub that records key and the concatenation of its inputs in ghost fields; Hmac::from_engine is the uninterpreted hmac_sha256 of those; fixed_time_eq is equality); decrypting and parsing the payload after the gate are dropped and not claimed
+//! trusted: R15 (deep slices): the TLV type literal under which each of the three sender-side payload writers puts the keysend preimage and from which each of the two receiver-side readers takes it (five literals extracted from the TLV macro invocations of ln/msgs.rs); the TLV macros themselves are not verified
 //! assume: every hop's fee_msat <= 21e17 (the total supply in msat): without it `cur_value_msat += hop.fee_msat()` can overflow u64 before the limit test (observation O5 in DESIGN)
 //! assume: the contract is for a path without blinded or trampoline tail (blinded_tail is None) whose final hop carries a non-zero amount; the other arms are kept in the verified text but unreachable under this precondition and not claimed
 use vstd::prelude::*;
@@ -251,6 +252,59 @@ pub enum OnionDecodeErr { Malformed { err_msg: &'static str, reason: LocalHTLCFa
     if let Some(tag) = payment_hash { hmac.input(&tag.0[..]); }
 //@with
     
+//@end
+
+// ---- keysend: every sender-side payload writes the preimage under the TLV type every receiver-side payload reads it from (five deep R15 slices of the onion payload codecs; finding F3) ----
+// bLIP 3
+pub open spec fn keysend_tlv_type() -> u64 { 5482373484 }
+//@extract lightning/src/ln/msgs.rs :: impl Writeable for OutboundOnionPayload :: fn write
+//@slice R15 nth=1
+    let keysend_tlv = keysend_preimage.map(|preimage| ($t:lit, preimage.encode()));
+//@with
+    fn onion_receive_keysend_type_written() -> u64 { $t }
+//@ret r
+//@ensures P C14 a-keysend-preimage-is-written-under-the-tlv-type-the-final-hop-reads-it-from
+    r == keysend_tlv_type(),
+//@end
+//@extract lightning/src/ln/msgs.rs :: impl Writeable for OutboundOnionPayload :: fn write
+//@slice R15 nth=2
+    let keysend_tlv = keysend_preimage.map(|preimage| ($t:lit, preimage.encode()));
+//@with
+    fn onion_blinded_receive_keysend_type_written() -> u64 { $t }
+//@ret r
+//@ensures P C14 a-keysend-preimage-is-written-under-the-tlv-type-the-final-hop-reads-it-from
+    r == keysend_tlv_type(),
+//@end
+//@extract lightning/src/ln/msgs.rs :: impl Writeable for OutboundTrampolinePayload :: fn write
+//@slice R15
+    let keysend_tlv = keysend_preimage.map(|preimage| ($t:lit, preimage.encode()));
+//@with
+    fn trampoline_blinded_receive_keysend_type_written() -> u64 { $t }
+//@ret r
+//@ensures P C14 a-keysend-preimage-is-written-under-the-tlv-type-the-final-hop-reads-it-from
+    r == keysend_tlv_type(),
+//@mutant trampoline_keysend_written_under_an_unknown_even_type
+    (5482373484, preimage.encode())
+//@with
+    (20, preimage.encode())
+//@end
+//@extract lightning/src/ln/msgs.rs :: impl ReadableArgs for InboundOnionPayload :: fn read
+//@slice R15
+    ($t:lit, keysend_preimage, option)
+//@with
+    fn onion_keysend_type_read() -> u64 { $t }
+//@ret r
+//@ensures P C14 the-final-hop-reads-the-keysend-preimage-from-the-blip-3-tlv-type
+    r == keysend_tlv_type(),
+//@end
+//@extract lightning/src/ln/msgs.rs :: impl ReadableArgs for InboundTrampolinePayload :: fn read
+//@slice R15
+    ($t:lit, keysend_preimage, option)
+//@with
+    fn trampoline_keysend_type_read() -> u64 { $t }
+//@ret r
+//@ensures P C14 the-final-hop-reads-the-keysend-preimage-from-the-blip-3-tlv-type
+    r == keysend_tlv_type(),
 //@end
 }
 fn main() {}
